@@ -23,6 +23,7 @@ T = {
     'C13-m1': ('C13', 'start_visit skips "immutable" types including tuple: a cycle entered through a plain tuple is not cut at the tuple; the marker lands one hop later with the wrong type/id (needs a cycle built through a tuple and printing reaching the tuple first)', {'C13': 'VIOLATION with input'}),
     'C14-m1': ('C14', 'the repr fallback returns before end_visit: a failed value stays in the visited set, so the SAME object reached again in one pformat call prints as a recursion marker and its warning is lost', {'C14': 'VIOLATION with input'}),
     'C17-m1': ('C17', 'the attrs extra memoises default-factory results per (class, attribute): with a takes_self factory later instances are compared against the first printed instance\'s default (needs two instances of one class with different self-dependent defaults)', {'C17': 'VIOLATION with input (after generating several instances per class with self-dependent factories; before that: no-failing-input-found via the fail-closed translator)'}),
+    'C16-m1': ('C16', 'styleattrs_to_colorful memoised on (color, bgcolor) only: two tokens sharing colours but differing in bold/italic/underline get the style of the first one rendered in the process (e.g. style friendly: String vs bold String.Escape)', {'C16': 'VIOLATION with input'}),
     'C03-m1': ('C03', 'the dangling comma of a commented one-element tuple is added only in the flat variant: at narrow widths (comment above the element) the 1-tuple prints as a parenthesised expression', {'C03': 'VIOLATION with input', 'C09': 'VIOLATION with input'}),
 }
 
